@@ -167,6 +167,14 @@ def registry():
     reg('gev', lambda r: [_pd(r, F, D), _pd(r, F, D)], lambda x, n: bf.get_gev_vector(x, n))
     reg('lcmv', lambda r: [_c(r, K, F, D), np.array([1.0, 0.0]), _pd(r, F, D)], lambda a, q, p: bf.get_lcmv_vector(a, q, p))
     reg('ban', lambda r: [_c(r, F, D), _pd(r, F, D)], lambda w, p: bf.blind_analytic_normalization(w, p))
+
+    def _zero_dc(r, nf):
+        p = _pd(r, nf, D)
+        p[0] = 0                      # a silent DC bin: the normalisation is 0 / 0 there and defined as 0
+        return [_c(r, nf, D), p]
+    # whole spectra (257 / 513 / 1025 bins) with a silent DC bin; wrapper names with '+ban' as well
+    for nf in (257, 513, 1025, 100):
+        reg(f'ban:zero_dc:{nf}', (lambda nf: lambda r: _zero_dc(r, nf))(nf), lambda w, p: bf.blind_analytic_normalization(w, p))
     reg('phase_correction', lambda r: [_c(r, F, D)], lambda w: bf.phase_correction(w))
     reg('apply_bf', lambda r: [_c(r, F, D), _c(r, F, D, T)], lambda w, x: bf.apply_beamforming_vector(w, x))
     reg('souden', lambda r: [_pd(r, F, D), _pd(r, F, D)], lambda x, n: bf.get_mvdr_vector_souden(x, n))
